@@ -16,8 +16,6 @@ open Reader
 (moved flag bit, other family id or version, other preamble size) is caught here although round trips still pass -/
 theorem wire_consts_documented : codeCfg = docCfg := by decide
 
-/-- hence all C09/C11 theorems apply to the constants the code uses -/
-theorem codeCfg_ok : CfgOK codeCfg := by rw [wire_consts_documented]; decide
 
 /-- the serial-version-1 image of a one-item sketch decodes (with the current reader) to the state it was built from -/
 theorem legacy_decode_encode (sd : Serde) (hs : sd.Lawful) (c : Cfg) (hc : CfgOK c) (k : Nat) (lz : Bool) (it : Item)
